@@ -219,6 +219,11 @@ def _split_top(s):
 def pat_accepts(pat, scrut, val):
     """Does the canonical pattern text accept the scrutinee under the valuation?  True / False / None (unknown)."""
     pat = pat.strip()
+    cm = H._ctor_match(scrut.strip(), pat)
+    if cm is False:
+        return False
+    if cm is not None:
+        return True
     if "|" in pat and not pat.startswith("("):
         rs = [pat_accepts(p_, scrut, val) for p_ in pat.split("|")]
         return True if any(r is True for r in rs) else (None if any(r is None for r in rs) else False)
